@@ -756,6 +756,10 @@ type Treasure interface {
 	// Save saves the Treasure to the file system.
 	Save(guardID guard.ID) TreasureStatus
 
+	// ResetChangeFlags clears the change flags after a save has been classified.
+	// Only the current guard holder may call it, before releasing the guard.
+	ResetChangeFlags(guardID guard.ID)
+
 	CheckIfContentChanged(newContent *Content) bool
 
 	IsContentChanged() bool
@@ -2213,16 +2217,26 @@ func (t *treasure) IsDifferentFrom(guardID guard.ID, otherTreasure Treasure) boo
 // Save saves the treasure to the Swamp
 func (t *treasure) Save(guardID guard.ID) TreasureStatus {
 	_ = t.Guard.CanExecute(guardID)
-	status := t.saveMethod(t, guardID)
-	// the change flags describe the difference to the last saved state: once the
-	// save has been classified they must not leak into the next Save, otherwise an
-	// identical re-Set is reported (and broadcast) as a modification forever.
+	// The save method classifies the save from the change flags and then clears
+	// them (ResetChangeFlags) while it still owns the guard.
+	return t.saveMethod(t, guardID)
+}
+
+// ResetChangeFlags clears the "changed since the last save" flags. The change
+// flags describe the difference to the last saved state: once a save has been
+// classified they must not leak into the next Save, otherwise an identical
+// re-Set is reported (and broadcast) as a modification forever. It must be
+// called by the guard holder BEFORE the guard is released: afterwards the next
+// holder may already have set flags of its own.
+func (t *treasure) ResetChangeFlags(guardID guard.ID) {
+	if err := t.Guard.CanExecute(guardID); err != nil {
+		return
+	}
 	t.mu.Lock()
 	t.expirationTimeChanged, t.contentChanged, t.contentTypeChanged = false, false, false
 	t.createdAtChanged, t.createdByChanged = false, false
 	t.modifiedAtChanged, t.modifiedByChanged = false, false
 	t.mu.Unlock()
-	return status
 }
 
 func (t *treasure) IsContentChanged() bool {
